@@ -287,12 +287,12 @@ impl Check for Refusal {
     }
     fn strategy(&self, _tier: Tier) -> BoxedStrategy<RefusalCase> {
         let c = cfg();
-        (ga::shaped_program(&c, 1), 0u8..8, any::<u8>())
+        (ga::shaped_program(&c, 1), 0u8..9, any::<u8>())
             .prop_map(|(program, mutation, which)| RefusalCase { program, mutation, which })
             .boxed()
     }
     fn rule(&self) -> String {
-        "tau* theory of a random program with exactly one defect injected into one formula with a first-order head: head argument replaced by a numeral / by an integer term / repeated variable / head variables renamed, swapped, rotated or given another sort in one of two partial definitions of the same predicate / outer quantifier dropped (free variables); oracle: completion returns None; control: every unmutated tau* theory is completed; non-trivial = a defect could be injected (the program has a rule with a first-order head); distinct by mutated theory text".into()
+        "tau* theory of a random program with exactly one defect injected into one formula with a first-order head: head argument replaced by a numeral / by an integer term / repeated variable / head variables renamed, swapped, rotated or given another sort in one of two partial definitions of the same predicate / outer quantifier made existential / outer quantifier dropped (free variables); oracle: completion returns None; control: every unmutated tau* theory is completed; non-trivial = a defect could be injected (the program has a rule with a first-order head); distinct by mutated theory text".into()
     }
     fn run(&self, case: &RefusalCase) -> Outcome {
         let theory = case.program.clone().tau_star();
@@ -377,6 +377,15 @@ impl Check for Refusal {
                     return Outcome::skip("formula is not quantified");
                 }
                 mutated.formulas.push(copy);
+            }
+            8 => {
+                // the outermost quantifier of a rule is existential
+                label = "existential-rule";
+                if let fol::Formula::QuantifiedFormula { quantification, .. } = &mut mutated.formulas[idx] {
+                    quantification.quantifier = fol::Quantifier::Exists;
+                } else {
+                    return Outcome::skip("formula is not quantified");
+                }
             }
             4 => {
                 label = "free-variable";
